@@ -20,6 +20,7 @@ import (
 	"sort"
 	"strings"
 	"testing"
+	"time"
 
 	"github.com/New-JAMneration/JAM-Protocol/internal/database"
 	"github.com/New-JAMneration/JAM-Protocol/internal/database/provider/memory"
@@ -368,12 +369,15 @@ func c27Observe(db database.Database, prov string, ref c27Ref, o *c27Obs) string
 			o.add(prov+".Get", "argument-modified", "", "Get(%q) modified its key argument", k)
 		}
 		// caller mutation of the returned slice must not reach the store
+		if len(v) == 0 {
+			goto has
+		}
 		c27Scribble(v)
-		v2, found2, err := db.Get([]byte(k))
-		if err != nil || found2 != in || (in && string(v2) != w) {
+		if v2, found2, err := db.Get([]byte(k)); err != nil || found2 != in || (in && string(v2) != w) {
 			o.add(prov+".Get", "returned-slice-aliases-store", "", "content %s: after overwriting the slice returned by Get(%q), Get returns (%q,%v,%v)", ref.canon(), k, v2, found2, err)
 			return "get-alias"
 		}
+	has:
 		h, err := db.Has([]byte(k))
 		if err != nil {
 			o.add(prov+".Has", "unexpected-error", "", "Has(%q): %v", k, err)
@@ -674,7 +678,11 @@ func c27ForRedis(e c27Event) c27Event {
 	return e
 }
 
+var c27Millis = map[string]float64{}
+
 func c27RunCase(r *vlib.Run, p c27Provider, c c27Case) {
+	t0 := time.Now()
+	defer func() { c27Millis[p.name] += float64(time.Since(t0).Microseconds()) / 1000 }()
 	if p.name == "redis" {
 		c.Event = c27ForRedis(c.Event)
 	}
@@ -827,7 +835,9 @@ func TestVerif_C27(t *testing.T) {
 			}
 		}
 		if r.Mine(uint64(si)) {
+			t0 := time.Now()
 			c27RunStateSequential(r, pdir, s.hist, events, r.Thorough())
+			c27Millis["pebble-dir-sequential"] += float64(time.Since(t0).Microseconds()) / 1000
 		}
 	}
 	os.RemoveAll(c27TmpRoot(r))
